@@ -814,6 +814,7 @@ class FT:
             s.lines.append('  { unsigned __int128 w_ = (unsigned __int128)(U64)%s * (unsigned __int128)(U64)%s; %s.f0 = (I64)(U64)w_; %s.f1 = (w_ >> 64) != 0; }' % (args[0][1], args[1][1], s.v(dst), s.v(dst)))
             return
         if callee.startswith('@llvm.stacksave'): assign(rt, '0'); return
+        if callee.startswith('@llvm.is.constant'): assign(rt, '0'); return   # __builtin_constant_p of a non-constant: LLVM's own lowering is `false` (LangRef); only selects between equivalent libstdc++ paths (std::prev/advance)
         if callee.startswith('@llvm.stackrestore'): return
         if callee.startswith('@llvm.'): raise Unsupported('intrinsic ' + callee)
         if callee[0] == '@':
